@@ -17,6 +17,7 @@ LEVEL = "proof"
 SIG_INDEL = "C07/anchored-or-noninternal-indel-window"
 SIG_INSIDE = "C07/anywhere-read-inside-adapter"
 SIG_BEYOND = "C07/window-beyond-read"
+SIG_NUL = "C07/nul-in-read-vs-n-wildcard"     # found while building this check (not among the design-phase findings)
 SIG_OTHER = "C07/other"
 NONINTERNAL = ("prefix", "suffix", "nifront", "niback")
 
@@ -145,6 +146,10 @@ def indel_mutate(rng, s, k):
 def gen_read(rng, cfg, a):
     seq = a.sequence
     m = len(seq)
+    if "N" in seq and rng.random() < 0.04:
+        # a NUL byte (legal ASCII in FASTA/FASTQ) where the adapter has its N wildcard
+        cp = "".join("\0" if c == "N" and rng.random() < 0.6 else rng.choice(gens.IUPAC_EXP.get(c, c)) for c in seq)
+        return gens.rand_seq(rng, rng.randint(0, 8)) + cp + gens.rand_seq(rng, rng.randint(0, 8))
     if rng.random() < 0.4:
         return gens.gen_read(rng, seq)
     ty = cfg["ty"]
@@ -213,6 +218,8 @@ def heap_demo():
 def classify(cfg, a, read, mt):
     """signature for a read whose match is lost through the prefilter (mt = the match found without it)"""
     m = len(a.sequence)
+    if "\0" in read[mt.rstart:mt.rstop] and a.adapter_wildcards and not a.read_wildcards:
+        return SIG_NUL
     if cfg["ty"] in NONINTERNAL and a.indels and mt.errors > 0:
         return SIG_INDEL
     if (cfg["ty"] == "anywhere" or cfg.get("force_anywhere")) and mt.astart > 0 and mt.astop < m \
@@ -371,29 +378,33 @@ def small_scope(ctx, max_adapter, max_read, rates, alphabet="ACG", sample_every=
                      f"rates {rates} x indels on/off, min_overlap 1: {k} adapter/read pairs through the oracle")
 
 
-def dedupe_failures(ctx, keep_per_sig=40):
-    """keep the evidence small: at most `keep_per_sig` failures per signature, shortest inputs first"""
+def dedupe_failures(ctx, keep_per_sig=12):
+    """keep the evidence small: at most `keep_per_sig` failures per signature, shortest inputs first; the first failures
+    listed are one of each signature (unknown ones first), so that the replay file shows every class"""
     by = {}
     for f in ctx.failures:
         by.setdefault(f.signature, []).append(f)
-    out = []
-    for sig in (SIG_OTHER, SIG_INDEL, SIG_INSIDE, SIG_BEYOND):
+    order = [SIG_OTHER] + sorted(k for k in by if k not in (SIG_OTHER, SIG_INDEL, SIG_INSIDE, SIG_BEYOND, SIG_NUL)) + \
+            [SIG_INDEL, SIG_INSIDE, SIG_BEYOND, SIG_NUL]
+    heads, tails = [], []
+    for sig in order:
         fl = sorted(by.get(sig, []), key=lambda f: (len(f.input["cfg"]["seq"]) + len(f.input["read"]), f.input["cfg"]["seq"], f.input["read"]))
         ctx.count("failures:" + sig, len(fl))
-        out.extend(fl[:keep_per_sig])
-    ctx.failures = out
+        heads.extend(fl[:1])
+        tails.extend(fl[1:keep_per_sig])
+    ctx.failures = heads + tails
 
 
 def run(ctx):
     ctx.rule = ("function-level: random sequences/chunk counts, random search lists incl. middle searches, random adapters 1..160 x rates x "
                 "min_overlap x (back, front, internal); adapter-level: eight adapter classes (+ ';anywhere'), rates < 1, wildcards, indels on/off, "
                 "adapters up to 170 (several masks per entry, words > 64 -> mock finder), reads = random / mutated copies at every offset / "
-                "indel-mutated copies at the anchored end / pieces of the adapter / reads shorter than the 5' windows; "
+                "indel-mutated copies at the anchored end / pieces of the adapter / reads shorter than the 5' windows / NUL bytes at N wildcards; "
                 "non-trivial = distinct case in which the prefilter rejects the read, or a match with >= 1 error passes a real (non-mock) finder")
     chunk_cases(ctx, ctx.scale(3000, 60000))
     minimize_cases(ctx, ctx.scale(3000, 60000))
     poskmers_cases(ctx, ctx.scale(4000, 100000))
-    random_cases(ctx, ctx.scale(2500, 150000), 16)
+    random_cases(ctx, ctx.scale(5000, 150000), 16)
     if ctx.tier == "thorough":
         small_scope(ctx, 5, 7, [0.0, 0.2, 0.34])
     dedupe_failures(ctx)
@@ -405,7 +416,7 @@ def extended_search(ctx):
 
 
 def extra_coverage(ctx):
-    return dict(expected_failure_classes=[SIG_INDEL, SIG_INSIDE, SIG_BEYOND],
+    return dict(expected_failure_classes=[SIG_INDEL, SIG_INSIDE, SIG_BEYOND, SIG_NUL],
                 note="kmers_present cases in which a whole k-mer fits behind the read's terminating NUL inside an unclamped window are "
                      "excluded from the exact correspondence (verdict depends on foreign memory) and only checked one-sidedly")
 
